@@ -58,7 +58,13 @@ Fixpoint named_mismatch (want_selected : bool) (h : list step) (fdat : list nat)
   | _, _, _, _ => false
   end.
 
+(* A first-clause failure (some open differs from the fresh-interpreter open of the same path) is never attributed to the
+   known second-clause finding: such a case is region 0 whatever files it probes. *)
+Definition clause1 (c : case_t) : bool :=
+  list_eqb res3_eqb (map (fun o => (fst (fst o), snd (fst o))) (c_obs c)) (c_fresh c).
+
 Definition region (c : case_t) : nat :=
+  if negb (clause1 c) then 0 else
   if named_mismatch false (c_hist c) (c_fdat c) (c_named c) (c_fresh c) then 0
   else if named_mismatch true (c_hist c) (c_fdat c) (c_named c) (c_fresh c) then 1 else 0.
 
